@@ -507,3 +507,8 @@ package entities
 //@   loop 1 invariant cnt: 0 <= $i && $i <= len(b.orderedElementList)
 //@   loop 1 invariant none: forall j in [0, $i): ie(b.orderedElementList[j]).Name != name
 //@   loop 1 decreases len(b.orderedElementList) - $i
+
+//@ // GetElementMap builds a fresh name -> value map from the record's elements; it reads the record only
+//@ func (b *baseRecord) GetElementMap() (r)
+//@   noeffect
+//@   trusted
